@@ -407,6 +407,23 @@ var c07Shapes = []c07Shape{{
 		}
 	},
 }, {
+	// Empty sections WITH spare capacity: answer and authority made with
+	// capacity 2, additional emptied in place after an OPT was there (what
+	// ecscache.rmHopToHopData leaves behind).  Cannot come from the wire.
+	Name: "resp_nodata_spare_capacity", Deep: true,
+	Build: func() *dns.Msg {
+		extra := []dns.RR{c07OPT(1232, false, nil)}
+		clear(extra)
+
+		return &dns.Msg{
+			MsgHdr:   dns.MsgHdr{Id: 0x1012, Response: true, RecursionDesired: true, RecursionAvailable: true},
+			Question: c07Q("spare.example.", dns.TypeA),
+			Answer:   make([]dns.RR, 0, 2),
+			Ns:       make([]dns.RR, 0, 2),
+			Extra:    extra[:0],
+		}
+	},
+}, {
 	// Upstream reply with an extended RCODE (BADVERS = 16, extended part 1):
 	// its OPT carries 1 in the top byte of the TTL field.
 	Name: "resp_badvers_ext1", WireOnly: true, Ctor: true,
@@ -655,6 +672,19 @@ func c07Flip(b []byte) {
 func c07Sections(m *dns.Msg) [][]dns.RR { return [][]dns.RR{m.Answer, m.Ns, m.Extra} }
 
 func c07Mutate(m *dns.Msg, kind string) {
+	// "append#k" is the append mutation applied to live message k: what it
+	// appends names k, so that a record which lands in another message's
+	// storage is visible.  The appended records belong to the provenance of
+	// the appended-to message only.
+	who := byte(0)
+	if tag, ok := strings.CutPrefix(kind, "append#"); ok {
+		n, err := strconv.Atoi(tag)
+		if err != nil {
+			vrt.Fatalf("bad mutation %q", kind)
+		}
+		who, kind = byte(n), "append"
+	}
+	whoS := strconv.Itoa(int(who))
 	switch kind {
 	case "ttl":
 		// ecscache.fromCacheItem + CloneForReq + setECS on an existing option:
@@ -694,12 +724,12 @@ func c07Mutate(m *dns.Msg, kind string) {
 			}
 		}
 	case "append":
-		// Filtering / debug / AddEDE / setECS append records and options.
-		m.Answer = append(m.Answer, &dns.A{Hdr: c07Hdr("added.example.", dns.TypeA, 5), A: net.IP{203, 0, 113, 99}})
-		m.Extra = append(m.Extra, &dns.TXT{
-			Hdr: dns.RR_Header{Name: "debug.", Rrtype: dns.TypeTXT, Class: dns.ClassCHAOS, Ttl: 1},
-			Txt: []string{"added"},
-		})
+		// Filtering / debug / AddEDE / setECS / SetEdns0 append records and
+		// options: one record to the answer and authority sections; to the
+		// additional section exactly one OPT when there is none (SetEdns0 in
+		// ecscache.setECS), else an EDE option (AddEDE) and a debug TXT.
+		m.Answer = append(m.Answer, &dns.A{Hdr: c07Hdr("added-by-m"+whoS+".example.", dns.TypeA, 5), A: net.IP{203, 0, 113, 100 + who}})
+		m.Ns = append(m.Ns, &dns.NS{Hdr: c07Hdr("example.", dns.TypeNS, 6), Ns: "ns-added-by-m" + whoS + ".example."})
 		var opt *dns.OPT
 		for _, rr := range m.Extra {
 			if o, ok := rr.(*dns.OPT); ok {
@@ -707,10 +737,14 @@ func c07Mutate(m *dns.Msg, kind string) {
 			}
 		}
 		if opt != nil {
-			opt.Option = append(opt.Option, &dns.EDNS0_EDE{InfoCode: dns.ExtendedErrorCodeFiltered, ExtraText: "added"})
+			opt.Option = append(opt.Option, &dns.EDNS0_EDE{InfoCode: dns.ExtendedErrorCodeFiltered, ExtraText: "added by m" + whoS})
+			m.Extra = append(m.Extra, &dns.TXT{
+				Hdr: dns.RR_Header{Name: "debug.", Rrtype: dns.TypeTXT, Class: dns.ClassCHAOS, Ttl: 1},
+				Txt: []string{"added by m" + whoS},
+			})
 		} else {
-			m.Extra = append(m.Extra, c07OPT(1232, false, []dns.EDNS0{
-				&dns.EDNS0_SUBNET{Code: dns.EDNS0SUBNET, Family: 1, SourceNetmask: 24, Address: net.IP{192, 0, 2, 0}},
+			m.Extra = append(m.Extra, c07OPT(1232+uint16(who), who%2 == 1, []dns.EDNS0{
+				&dns.EDNS0_SUBNET{Code: dns.EDNS0SUBNET, Family: 1, SourceNetmask: 24, Address: net.IP{192, 0, 2 + who, 0}},
 			}))
 		}
 	case "trunc":
@@ -1530,8 +1564,12 @@ func c07RunCase(r *vrt.Run, c c07Case) (fs []vrt.Finding) {
 			s.msg = nil
 		case "W":
 			s := slots[op.T]
-			c07Mutate(s.msg, op.M)
-			s.prov.Muts = append(s.prov.Muts, op.M)
+			mut := op.M
+			if mut == "append" {
+				mut = "append#" + strconv.Itoa(op.T)
+			}
+			c07Mutate(s.msg, mut)
+			s.prov.Muts = append(s.prov.Muts, mut)
 			s.mutated = true
 			r.Class("mutate " + op.M)
 		}
